@@ -674,6 +674,17 @@ func (concpComp) Gen(rng *rand.Rand, tier string) [][]string {
 		h = append(h, fmt.Sprintf("window batch.put.enter put:%s:%02x tick get:%s", k2, 0xc0+d, k2))
 		hs = append(hs, h)
 	}
+	// directed: the writer whose operation fills the batch is stopped between the LevelDB write of the size-triggered flush and
+	// the reset of the batch; operations arriving meanwhile are acknowledged after it and must not be wiped with the flushed ones
+	for d := 0; d < 3; d++ {
+		k1, k2, k3 := keys[d%3], keys[(d+1)%3], keys[(d+2)%3]
+		h := []string{fmt.Sprintf("begin concp kind=db batch=2 timer=0 keys=%s", strings.Join(keys, ","))}
+		h = append(h, fmt.Sprintf("wseq put:%s:%02x", k1, 0xa0+d))
+		h = append(h, fmt.Sprintf("window db.size.betweenWriteAndReset put:%s:%02x put:%s:%02x get:%s rm:%s", k2, 0xa4+d, k3, 0xa8+d, k3, k1))
+		h = append(h, fmt.Sprintf("wseq put:%s:%02x", k2, 0xac+d))
+		h = append(h, fmt.Sprintf("window db.size.betweenWriteAndReset rm:%s put:%s:%02x has:%s", k3, k1, 0xae+d, k1))
+		hs = append(hs, h)
+	}
 	for i := 0; i < nh; i++ {
 		kind := pick(rng, "db", "serial")
 		batch := pick(rng, 1, 2, 2, 3, 4)
@@ -714,7 +725,7 @@ func (concpComp) Gen(rng *rand.Rand, tier string) [][]string {
 		// decided which batch that is); whatever flushes meanwhile must not make the write vanish once it is acknowledged
 		hooks := []string{pfx + ".put.afterBatchPut", pfx + ".rm.afterBatchDelete", pfx + ".get.beforeDbRead", "batch.put.enter", "batch.put.enter", "batch.delete.enter"}
 		if kind == "db" {
-			hooks = append(hooks, "db.get.betweenBatchReads")
+			hooks = append(hooks, "db.get.betweenBatchReads", "db.size.betweenWriteAndReset")
 		} else {
 			hooks = append(hooks, "serial.putBatch.afterSwap", "serial.beforeWrite")
 		}
